@@ -56,7 +56,7 @@ func c45(c *Ctx) {
 		construct := fnName + ": every string argument of [" + osCalls.Name + "] is a d.resolve result and nothing of the raw name bypasses resolve"
 		n, bad := 0, false
 		for _, in := range osCalls.F(c.P, fn) {
-			for _, a := range in.(ssa.CallInstruction).Common().Args {
+			for _, a := range BaselineArgs(in.(ssa.CallInstruction).Common()) {
 				if !WdIsStringType(a) {
 					continue
 				}
@@ -75,7 +75,7 @@ func c45(c *Ctx) {
 		}
 		c.WdGuardSelf(fnName, osCalls, `each path argument != ""`, func(in ssa.Instruction) []string {
 			var specs []string
-			for _, a := range in.(ssa.CallInstruction).Common().Args {
+			for _, a := range BaselineArgs(in.(ssa.CallInstruction).Common()) {
 				if WdIsStringType(a) {
 					specs = append(specs, Term(a)+` != ""`)
 				}
@@ -115,7 +115,7 @@ func c45(c *Ctx) {
 	if fn := c.MustFn(resolve); fn != nil {
 		rule := "derives-from"
 		for _, in := range join.F(c.P, fn) {
-			arg := in.(*ssa.Call).Call.Args[0]
+			arg := BaselineArgs(&in.(*ssa.Call).Call)[0]
 			via, leaks := WdDerivesOnlyThrough(arg, WdIsParam(fn, 0), IsCallTo("webdav.slashClean"))
 			c.Check(via && !leaks, rule, resolve+": the name reaches filepath.Join only through slashClean", InstrPos(in), "", "the raw name reaches Join (or slashClean is not applied)")
 			c.Check(DependsOn(arg, WdIsReceiver(fn)), rule, resolve+": filepath.Join is rooted at the receiver", InstrPos(in), "", "Join does not use the Dir")
@@ -152,7 +152,7 @@ func c45(c *Ctx) {
 		if len(calls) != 1 {
 			c.Fail(rule, construct, fn.Pos(), "expected one path.Clean call")
 		} else {
-			arg := calls[0].Call.Args[0]
+			arg := BaselineArgs(&calls[0].Call)[0]
 			good, why := true, ""
 			checkLeaf := func(v ssa.Value, fs []Fact) {
 				switch {
